@@ -15,6 +15,8 @@
 package ggql
 
 import (
+	"fmt"
+	"math"
 	"strconv"
 )
 
@@ -33,17 +35,24 @@ func newFloat64Scalar() Type {
 	}
 }
 
+// finiteFloat64 returns the value or an error if it is not a finite number.
+func finiteFloat64(f float64) (interface{}, error) {
+	if math.IsNaN(f) || math.IsInf(f, 0) {
+		return nil, fmt.Errorf("%w %g into a Float64, not a finite number", ErrCoerce, f)
+	}
+	return f, nil
+}
+
 // CoerceIn coerces an input value into the expected input type if possible
 // otherwise an error is returned.
 func (*float64Scalar) CoerceIn(v interface{}) (interface{}, error) {
 	var err error
 	switch tv := v.(type) {
 	case nil:
-		// remains nil
 	case float64:
-		// ok as is
+		v, err = finiteFloat64(tv)
 	case float32:
-		v = float64(tv)
+		v, err = finiteFloat64(float64(tv))
 	case int32:
 		v = float64(tv)
 	case int64:
@@ -51,7 +60,7 @@ func (*float64Scalar) CoerceIn(v interface{}) (interface{}, error) {
 	case string:
 		var f float64
 		if f, err = strconv.ParseFloat(tv, 64); err == nil {
-			v = f
+			v, err = finiteFloat64(f)
 		}
 	default:
 		v = nil
@@ -65,11 +74,10 @@ func (t *float64Scalar) CoerceOut(v interface{}) (interface{}, error) {
 	var err error
 	switch tv := v.(type) {
 	case nil:
-		// remains nil
 	case float32:
-		v = float64(tv)
+		v, err = finiteFloat64(float64(tv))
 	case float64:
-		// ok as is
+		v, err = finiteFloat64(tv)
 	case int:
 		v = float64(tv)
 	case int8:
@@ -93,7 +101,7 @@ func (t *float64Scalar) CoerceOut(v interface{}) (interface{}, error) {
 	case string:
 		var f float64
 		if f, err = strconv.ParseFloat(tv, 64); err == nil {
-			v = f
+			v, err = finiteFloat64(f)
 		}
 	default:
 		v = nil
